@@ -17,11 +17,11 @@ func init() {
 		Cases: func(tier string) int {
 			switch tier {
 			case "thorough":
-				return 1500000
+				return 2500000
 			case "race":
 				return 60000
 			}
-			return 150000
+			return 400000
 		},
 		Run:            c07Run,
 		Floor:          func(tier string) int { return 5000 },
